@@ -4,6 +4,7 @@ package req
 
 import (
 	"bytes"
+	"crypto/sha256"
 	"crypto/tls"
 	"fmt"
 	"io"
@@ -463,6 +464,7 @@ func c01View(s *c01Seen, callerSetAE bool) string {
 			lines = append(lines, lk+": "+strings.Trim(v, " \t"))
 		}
 	}
+	c01AbbrevLines(lines)
 	sort.Strings(lines)
 	return fmt.Sprintf("%s %s\n%s\nbody %s", s.method, s.ruri, strings.Join(lines, "\n"), c01Blob(s.body))
 }
@@ -572,12 +574,23 @@ func c01Expected(tc *c01E2ECase) (method, ruri string, lines []string, body []by
 		}
 		lines = append(lines, "cookie: "+strings.Join(crumbs, "; "))
 	}
+	c01AbbrevLines(lines)
 	sort.Strings(lines)
 	body = tc.body
 	if tc.method == "HEAD" || tc.method == "OPTIONS" || tc.bodyKind == "none" {
 		body = nil
 	}
 	return method, ruri, lines, body, true
+}
+
+// c01AbbrevLines shows a field line longer than 1 KiB (the header-block size class) as its first
+// 48 bytes + length + SHA-256, on both sides of the comparison: exact, and keeps the evidence small.
+func c01AbbrevLines(lines []string) {
+	for i, l := range lines {
+		if len(l) > 1024 {
+			lines[i] = fmt.Sprintf("%s…[%d bytes, sha256 %x]", l[:48], len(l), sha256.Sum256([]byte(l)))
+		}
+	}
 }
 
 // c01SortCookies sorts the cookie-pairs of the view's "cookie: " line (multiset comparison).
